@@ -40,6 +40,8 @@ T = [
 ("C07","fix: FromUnixPath panicked","avfs.FromUnixPath(vfs, \"\") on a Windows-typed file system panicked (index out of range)"),
 ("C12","fix: FailFS.Sub and CreateTemp handed out","FailFS.Sub and FailFS.CreateTemp returned unwrapped base objects: calls through them never consulted the failure function (failures not injected, read-only plan bypassed); CreateTemp returned a zero FailFile whose methods panic when refused"),
 ("C10","fix: BasePathFS let paths","BasePathFS: '/../x', '../../x' after Chdir and relative paths reached files above the base directory (read, create, rename onto, remove), and Getwd, Abs, and error-path translation panicked in FromBasePath"),
+("C06","fix: concurrent MemFS.Rename calls deadlocked","concurrent MemFS.Rename: lock-order deadlocks (opposite renames; rename into the parent against Remove/RemoveAll/ReadDir of the parent), two winners for one source or destination (node under two names, stale link counter, replaced concurrent create), two directories renamed into each other (detached cycle)"),
+("C05","fix: MemFS.RemoveAll left the entries of deleted nodes","MemFS.RemoveAll: a refused RemoveAll, or one running next to a Rename out of the tree, left directory entries naming nodes it had already deleted (size 0, link count 0; link counter of the survivors wrong)"),
 ]
 log = subprocess.check_output(['git','-C','/repo','log','--format=%h %s','adfd2e3..HEAD']).decode().strip().split('\n')
 subj = {}
